@@ -44,24 +44,31 @@ def boundary_values(m, eps=None):
 
 
 # ------------------------------------------------------------------------------------------------ scope generation
-X, Y, K, V = "?x", "?y", "k", "?v"
+X, Y, K, V, W = "?x", "?y", "k", "?v", "?w"
 
 
 class Family:
-    def __init__(self, name, const, f="f", h="h", third=False, objects=None):
-        self.name, self.const, self.f, self.h = name, const, f, h
+    """wave 3: [consts] any list of constants (default: k - u when [const]); [nparams] 2 (?x ?y - t) or 0 (actions without parameters: the
+    only ones that can be called in a universe without any name); [noobj] the Operators are built with problem_objects=None"""
+
+    def __init__(self, name, const, f="f", h="h", third=False, objects=None, consts=None, nparams=2, noobj=False):
+        self.name, self.f, self.h, self.nparams, self.noobj = name, f, h, nparams, noobj
         self.objects = list(objects) if objects is not None else [("o1", "t"), ("o2", "u")] + ([("o3", "t")] if third else [])
-        self.consts = [(K, "u")] if const else []
+        self.consts = list(consts) if consts is not None else ([(K, "u")] if const else [])
+        self.const = any(n == K for n, _ in self.consts)
         self.universe = self.objects + self.consts
         names = [n for n, _ in self.universe]
         self.atoms = [["p", [a]] for a in names] + [["q", [a]] for a in names] + \
                      [["r", [a, b]] for a in names for b in names] + [["z", []]]
         self.fluents = [[f, [a]] for a in names] + [[h, []]]
-        self.calls = [list(c) for c in itertools.product(names, repeat=2)]
+        self.calls = [list(c) for c in itertools.product(names, repeat=nparams)]
         self.grid = [0.0, 1.0]
 
+    def params_text(self):
+        return "(?x - t ?y - t)" if self.nparams == 2 else "()"
+
     def header(self):
-        c = "(:constants %s - u) " % K if self.const else ""
+        c = "(:constants %s) " % " ".join("%s - %s" % kt for kt in self.consts) if self.consts else ""
         return ("(define (domain dom) (:requirements :typing :negative-preconditions :equality :disjunctive-preconditions "
                 ":universal-preconditions :fluents) (:types t - object u - t) %s"
                 "(:predicates (p ?a - t) (q ?a - t) (r ?a - t ?b - t) (z)) (:functions (%s ?a - t) (%s))" % (c, self.f, self.h))
@@ -83,8 +90,18 @@ class Family:
                    ["forall", [V, "-", "u"], ["or", ["r", V, Y], ["not", ["p", V]]]],
                    # the quantified variable has the name of the action's parameter ?y: inside the body ?y is the bound variable
                    ["forall", [Y, "-", "t"], ["and", ["q", Y]]],
-                   ["forall", [Y, "-", "u"], ["or", ["not", ["p", Y]], ["r", X, Y]]]]
-        return lits + eqs + cmps + foralls
+                   ["forall", [Y, "-", "u"], ["or", ["not", ["p", Y]], ["r", X, Y]]],
+                   # wave 3: a forall nested in a forall -- two variables; the SAME variable twice (the inner one shadows the outer one);
+                   # the same name as the parameter ?y twice; an inner variable named like the parameter under an outer one that is not
+                   ["forall", [V, "-", "t"], ["and", ["forall", [W, "-", "u"], ["or", ["r", V, W], ["not", ["p", W]]]]]],
+                   ["forall", [V, "-", "t"], ["and", ["q", V], ["forall", [V, "-", "u"], ["and", ["p", V]]]]],
+                   ["forall", [Y, "-", "t"], ["or", ["not", ["q", Y]], ["forall", [Y, "-", "u"], ["and", ["r", X, Y]]]]],
+                   ["forall", [V, "-", "u"], ["and", ["forall", [Y, "-", "t"], ["or", ["r", V, Y], ["q", Y]]]]]]
+        out = lits + eqs + cmps + foralls
+        if self.nparams == 0:
+            # no parameters: only what has no free variable; two comparisons over the nullary function instead of the ones over (f ?x)
+            out = [l for l in out if not free_vars(l, set())] + [[">=", [H], "1"], ["<", [H], "0.5"]]
+        return out
 
 
 class BoundFamily(Family):
@@ -103,6 +120,18 @@ class BoundFamily(Family):
         for op in ("=", "<=", ">=", "<", ">"):
             out += [[op, [F, X], [F, Y]], [op, [F, X], [H]], [op, [F, Y], self.mtext]]
         return out + [["not", ["p", X]]]
+
+
+def free_vars(t, bound):
+    """the variables of a leaf that no enclosing forall of the leaf binds"""
+    if isinstance(t, str):
+        return {t} if t.startswith("?") and t not in bound else set()
+    if t and t[0] == "forall":
+        return free_vars(t[2], bound | {t[1][0]})
+    out = set()
+    for x in t:
+        out |= free_vars(x, bound)
+    return out
 
 
 def names_in(t, acc):
@@ -124,6 +153,20 @@ BUDGET = {  # (leaves, two-leaf formulas, size-3 formulas, calls per formula, st
     ("quick", "F2"): (10, 30, 12, 2, 32),
     ("quick", "F3const"): (8, 14, 6, 2, 32),
     ("quick", "F2clash"): (8, 14, 6, 2, 32),
+    # wave 3 (seeded/C02_E): boundary object tables.  F0empty: no object, no constant (actions without parameters; every forall is vacuous);
+    # F0const: no object, constant k - u; F0const2: no object, constants k - u and k2 - t; F1t / F1u: one object (type u has no inhabitant /
+    # one); F0constT: no object, one constant of the upper type only (forall over u vacuous); F*none: the same universes with Operators built
+    # without an object table (problem_objects=None is not the empty table)
+    ("thorough", "F0empty"): (None, None, 40, None, 64), ("quick", "F0empty"): (None, 10, 3, None, 32),
+    ("thorough", "F0const"): (None, None, 40, None, 64), ("quick", "F0const"): (12, 16, 4, None, 32),
+    ("thorough", "F0const0"): (None, None, 40, None, 64), ("quick", "F0const0"): (None, 10, 3, None, 32),
+    ("thorough", "F0const2"): (None, 300, 40, None, 64), ("quick", "F0const2"): (6, 8, 3, 2, 32),
+    ("thorough", "F0constT"): (None, 300, 40, None, 64), ("quick", "F0constT"): (6, 8, 3, None, 32),
+    ("thorough", "F1t"): (None, None, 40, None, 64), ("quick", "F1t"): (8, 10, 3, None, 32),
+    ("thorough", "F1u"): (None, 300, 40, None, 64), ("quick", "F1u"): (6, 8, 3, None, 32),
+    ("thorough", "F2none"): (None, 200, 40, 2, 64), ("quick", "F2none"): (8, 10, 3, 1, 32),
+    ("thorough", "F0constnone"): (None, None, 40, None, 64), ("quick", "F0constnone"): (10, 12, 3, None, 32),
+    ("thorough", "F0const0none"): (None, None, 20, None, 64), ("quick", "F0const0none"): (None, 6, 2, None, 32),
     ("quick", "Fbound_1"): (None, 6, 0, 2, 81), ("quick", "Fbound_0.001"): (None, 4, 0, 1, 81), ("quick", "Fbound_1000"): (None, 4, 0, 1, 81),
     ("thorough", "Fbound_1"): (None, 40, 0, None, 400), ("thorough", "Fbound_0.001"): (None, 40, 0, None, 400),
     ("thorough", "Fbound_1000"): (None, 40, 0, None, 400), ("thorough", "Fbound_10"): (None, 20, 0, None, 400),
@@ -170,7 +213,15 @@ def formulas(fam, rng, tier):
 def scope_jobs(rng, tier):
     fams = [Family("F2", False), Family("F3const", True), Family("F2const", True, objects=[("o1", "t")]),
             Family("F2clash", False, f="q", h="z"),
-            Family("F3obj", False, third=True)] + [BoundFamily(m, tier == "quick") for m in ("1", "0.001", "1000", "10")]
+            Family("F3obj", False, third=True),
+            Family("F0empty", False, objects=[], nparams=0),
+            Family("F0const", True, objects=[]), Family("F0const0", True, objects=[], nparams=0),
+            Family("F0const2", True, objects=[], consts=[(K, "u"), ("k2", "t")]),
+            Family("F0constT", False, objects=[], consts=[("k2", "t")]),
+            Family("F1t", False, objects=[("o1", "t")]), Family("F1u", False, objects=[("o1", "u")]),
+            Family("F2none", False, noobj=True), Family("F0constnone", True, objects=[], noobj=True),
+            Family("F0const0none", True, objects=[], nparams=0, noobj=True)] + \
+           [BoundFamily(m, tier == "quick") for m in ("1", "0.001", "1000", "10")]
     jobs = []
     exhaustive = {}
     per_job = 24
@@ -186,7 +237,7 @@ def scope_jobs(rng, tier):
             acts, rows, meta = [], [], []
             for i, (size, tree) in enumerate(chunk):
                 an = "a%d" % i
-                acts.append("(:action %s :parameters (?x - t ?y - t) :precondition %s :effect (and (z)))" % (an, G.render(tree)))
+                acts.append("(:action %s :parameters %s :precondition %s :effect (and (z)))" % (an, fam.params_text(), G.render(tree)))
                 mentioned = names_in(tree, set())
                 rel_a = [j for j, (p, _) in enumerate(fam.atoms) if p in mentioned]
                 rel_f = [j for j, (f, _) in enumerate(fam.fluents) if f in mentioned]
@@ -214,7 +265,7 @@ def scope_jobs(rng, tier):
             text = fam.header() + "\n" + "\n".join(acts) + ")"
             jobs.append({"op": "c02.scope", "domain_text": text, "objects": [list(o) for o in fam.objects],
                          "atoms": fam.atoms, "fluents": fam.fluents, "grid": [g.hex() for g in grid], "rows": rows,
-                         "meta": meta, "family": fam.name})
+                         "meta": meta, "family": fam.name, "noobj": fam.noobj})
     return jobs, exhaustive
 
 
@@ -252,8 +303,8 @@ def scase_literal(job, res, eps_hex):
                         cstr(row["action"]), clist([cstr(a) for a in row["args"]]), row["base_facts"], row["base_fl"],
                         clist(["%d%%nat" % i for i in row["rel_atoms"]]), clist(["%d%%nat" % i for i in row["rel_fl"]]),
                         cstr(ans)))
-    return "(AS {| sc_world := %s; sc_atoms := %s; sc_fluents := %s; sc_grid := %s; sc_rows := %s |})" % (
-        w, clist([catom(p, a) for p, a in job["atoms"]]), clist([catom(f, a) for f, a in job["fluents"]]),
+    return "(AS {| sc_world := %s; sc_noobj := %s; sc_atoms := %s; sc_fluents := %s; sc_grid := %s; sc_rows := %s |})" % (
+        w, cbool(job.get("noobj", False)), clist([catom(p, a) for p, a in job["atoms"]]), clist([catom(f, a) for f, a in job["fluents"]]),
         clist([chex(float.fromhex(g)) for g in job["grid"]]), clist(rows))
 
 
@@ -268,6 +319,7 @@ def single_probe_world(job, row, meta, n):
         " ".join("(%s)" % " ".join([p] + a) for p, a in st["facts"])))
     return {"domain_text": head + "\n" + act + ")",
             "objects": job["objects"], "oof": False, "oof_kind": None, "features": ["scope:" + meta["family"]],
+            "noobj": bool(job.get("noobj")),
             "probes": [{"action": row["action"], "args": row["args"], "state": st, "problem_text": ptxt, "perm_seed": 0,
                         "nwhen": 0, "nuniv": 0}]}
 
@@ -299,6 +351,7 @@ def gen_world_t(rng, max_actions=2):
         a = G.gen_action(rng, w, i)
         if rng.random() < 0.25:
             plant_forall(rng, w, a)
+        nest_foralls(rng, w, a)
         shadow_foralls(rng, w, a)
         w.actions.append(a)
     constant_of_quantified_type(rng, w)
@@ -368,6 +421,191 @@ def constant_of_quantified_type(rng, w):
         w.features.add("constant-of-quantified-type")
 
 
+def nest_foralls(rng, w, a):
+    """wave 3 (the class seeded/C02_A and seeded/C03_F share): a universal condition nested in a universal condition -- with another
+    variable, or with the SAME variable name again (the inner quantifier shadows the outer one); shadow_foralls (called afterwards)
+    may rename either to a parameter of the action"""
+    def visit(t, depth):
+        if isinstance(t, list) and t and t[0] == "forall" and len(t) == 3 and isinstance(t[2], list) and t[2] and t[2][0] in ("and", "or"):
+            v, ty = t[1][0], t[1][2]
+            body = [t[2][0]] + [visit(x, depth + 1) for x in t[2][1:]]
+            if depth == 0 and rng.random() < 0.5:
+                same = rng.random() < 0.5
+                v2 = v if same else "?qn"
+                ty2 = rng.choice(w.all_types())
+                scope = list(a["params"]) + ([] if same else [(v, ty)]) + [(v2, ty2)]
+                inner = [x for x in (G.gen_form(rng, w, scope, 1, True, True) for _ in range(rng.randint(1, 2))) if x]
+                if inner:
+                    body.insert(rng.randrange(1, len(body) + 1), ["forall", [v2, "-", ty2], [rng.choice(["and", "or"])] + inner])
+                    w.features.add("forall-in-forall-same-variable" if same else "forall-in-forall")
+            return ["forall", t[1], body]
+        if isinstance(t, list):
+            return [visit(x, depth) for x in t]
+        return t
+    a["pre"] = visit(a["pre"], 0)
+
+
+BOUNDARY_MODES = ["empty+const", "empty+const", "empty-noconst", "one-object-of-type", "one-object-other", "constants-only", "uninhabited",
+                  "object+constant"]
+
+
+def gen_boundary_world(rng):
+    """wave 3 (seeded/C02_E): BOUNDARY OBJECT TABLES.  A fresh leaf type tq whose inhabitants the generator controls, a predicate
+    (pb ?a - tq), universal preconditions over tq (plain, below an or, nested in / around another quantifier, the same variable twice) and a
+    forall-when effect over tq; then the object table: EMPTY with / without a constant of tq, ONE object (of tq / of another type), tq
+    inhabited by constants only, tq without any inhabitant (every forall over it is vacuously true), an object and a constant.  Calls bind
+    constants where there is no object (a constant is added for every parameter type that would have no inhabitant)."""
+    w = G.World()
+    G.gen_types(rng, w, max_types=3)
+    G.gen_vocab(rng, w)
+    actions = [G.gen_action(rng, w, i) for i in range(rng.randint(1, 2))]     # before tq exists: nothing else mentions it
+    parent = rng.choice(w.all_types())
+    w.types["tq"] = parent
+    n = len(w.type_lines) - (1 if w.type_lines and w.type_lines[-1][1] is None else 0)
+    w.type_lines.insert(rng.randrange(n + 1), (["tq"], parent))
+    w.preds.append(("pb", [("?a0", "tq")]))
+    mode = rng.choice(BOUNDARY_MODES)
+    w.features.add("boundary:" + mode)
+    for i, a in enumerate(actions):
+        if i and rng.random() < 0.3:
+            w.actions.append(a)
+            continue
+        v = "?qb"
+
+        def body(var, scope_extra):
+            items = [rng.choice([["pb", var], ["pb", var], ["not", ["pb", var]]])]
+            extra = G.gen_form(rng, w, list(a["params"]) + scope_extra + [(var, "tq")], 1, True, True)
+            if extra and rng.random() < 0.5:
+                items.append(extra)
+            rng.shuffle(items)
+            return [rng.choice(["and", "and", "or"])] + items
+        shape = rng.choice(["plain", "plain", "in-or", "outer", "inner", "same-name"])
+        if shape in ("plain", "in-or"):
+            q = ["forall", [v, "-", "tq"], body(v, [])]
+            if shape == "in-or":
+                other = G.gen_form(rng, w, list(a["params"]), 0, True, True)
+                q = ["or", q] + ([other] if other else [])
+        elif shape == "outer":       # tq outside, another type inside
+            ty2 = rng.choice(w.all_types())
+            inner = G.gen_form(rng, w, list(a["params"]) + [(v, "tq"), ("?qc", ty2)], 1, True, True)
+            q = ["forall", [v, "-", "tq"], ["and", ["forall", ["?qc", "-", ty2], ["or"] + ([inner] if inner else []) + [["pb", v]]]]]
+        elif shape == "inner":       # another type outside, tq inside
+            ty2 = rng.choice(w.all_types())
+            q = ["forall", ["?qc", "-", ty2], ["and", ["forall", [v, "-", "tq"], body(v, [("?qc", ty2)])]]]
+        else:                        # the same variable name twice: tq inside another quantifier that binds the same name
+            ty2 = rng.choice(w.all_types())
+            outer_lit = G.gen_form(rng, w, list(a["params"]) + [(v, ty2)], 0, True, True)
+            q = ["forall", [v, "-", ty2], [rng.choice(["and", "or"])] + ([outer_lit] if outer_lit else []) + [["forall", [v, "-", "tq"], body(v, [])]]]
+            w.features.add("forall-in-forall-same-variable")
+        w.features.add("boundary-shape:" + shape)
+        pre = a["pre"]
+        if not (isinstance(pre, list) and pre and pre[0] == "and"):
+            pre = ["and"] + ([pre] if pre else [])
+        a["pre"] = pre + [q]
+        if rng.random() < 0.5:
+            e = ["not", ["pb", "?ub"]] if rng.random() < 0.5 else ["pb", "?ub"]
+            c = ["pb", "?ub"] if e[0] == "not" else ["not", ["pb", "?ub"]]
+            a["eff"] = a["eff"] + [["forall", ["?ub", "-", "tq"], ["when", c, e]]]
+            w.features.add("forall-when")
+        w.features.add("forall-pre")
+        shadow_foralls(rng, w, a)
+        w.actions.append(a)
+    others = [t for t in w.all_types() if t != "tq"]
+    if mode.startswith("empty"):
+        objs = []
+    elif mode == "one-object-of-type":
+        objs = [("o0", "tq")]
+    elif mode == "one-object-other":
+        objs = [("o0", rng.choice(others))]
+    elif mode == "object+constant":
+        objs = [("o0", "tq")] + [("o%d" % i, rng.choice(w.all_types())) for i in range(1, rng.randint(1, 3))]
+    else:
+        objs = [("o%d" % i, rng.choice(others)) for i in range(rng.randint(2, 3))]
+    if mode in ("empty+const", "constants-only", "object+constant") or (mode == "one-object-other" and rng.random() < 0.5):
+        for i in range(rng.choice([1, 1, 2])):
+            w.consts.append(("kq%d" % i, "tq"))
+        w.features.add("constant-of-quantified-type")
+    universe = list(objs) + list(w.consts)
+    for a in w.actions:
+        if not any(t == "tq" for _, t in universe):          # tq stays without inhabitant: no parameter may need one
+            a["params"] = [(pn, parent if pt == "tq" else pt) for pn, pt in a["params"]]
+        for _, pt in a["params"]:
+            if not any(w.is_sub(t, pt) for _, t in universe):
+                c = ("kp%d" % len(w.consts), pt)
+                w.consts.append(c)
+                universe.append(c)
+    wd = build_world_b(rng, w, n_states=4, calls_per_action=3, objs=objs)
+    wd["boundary"] = mode
+    return wd
+
+
+def noobj_copy(wd):
+    """the same world and probes, answered by Operators built with problem_objects=None (judged by Corr.C02.judge_noobj_world)"""
+    out = dict(wd)
+    out["noobj"] = True
+    out["features"] = sorted(set(wd["features"]) | {"operator-without-object-table"})
+    return out
+
+
+def run_worlds_c02(worlds, hashseed=0):
+    jobs = [{"op": "c02.world_noobj" if wd.get("noobj") else "core.world", "domain_text": wd["domain_text"], "objects": wd["objects"],
+             "probes": [{k: p[k] for k in ("action", "args", "problem_text", "perm_seed")} for p in wd["probes"]]}
+            for wd in worlds]
+    return run_impl(jobs, hashseed=hashseed)
+
+
+def build_sequence_b(rng, nrounds):
+    """wave 3 (seeded/C20_E, the half that changes applicability): ONE parsed domain whose Action objects are edited in place through the
+    library's own API between applicability queries (c20.gen_sequence: add / remove precondition literals, groups and numeric conditions,
+    effects, change_signature and back); every answer is judged against the schema as the library's exporter dumps it at that moment"""
+    from . import c20
+    for _ in range(50):
+        w = gen_world_t(rng, max_actions=2)
+        if any(c20.has_empty_forall(a["pre"]) or c20.has_empty_forall(a["eff"]) for a in w.actions):
+            continue
+        for a in w.actions:                  # a weak precondition to start from in 40% of the actions: then every added condition decides
+            if rng.random() < 0.4:
+                keep = [x for x in a["pre"][1:]] if isinstance(a["pre"], list) and a["pre"] and a["pre"][0] == "and" else []
+                a["pre"] = ["and"] + (rng.sample(keep, 1) if keep and rng.random() < 0.5 else [])
+        objs = G.gen_objects(rng, w)
+        states = [G.gen_state(rng, w, objs, density=rng.choice([0.5, 0.8])) for _ in range(3)]
+        steps = c20.gen_sequence(rng, w, objs, nrounds, kind="app", nstates=len(states))
+        if steps is None:
+            continue
+        w.features.add("sequence")
+        return {"domain_text": G.render(w.domain_tree("dom"), rng, True), "header_text": c20.header_text(w, rng),
+                "problem_text": c20.objects_problem(objs), "objects": [list(o) for o in objs],
+                "states": [G.problem_text(w, objs, st) for st in states], "state_values": states, "steps": steps,
+                "features": sorted(w.features)}
+    raise RuntimeError("no world with a callable action in 50 attempts")
+
+
+def sequence_worlds_b(seq, res):
+    """per epoch (the domain as exported after an edit) one world whose probes are the applicability queries made in that epoch"""
+    if "epochs" not in res:
+        raise RuntimeError("the implementation rejected a generated sequence world: %r\n%s" % (
+            {k: res.get(k) for k in ("parse_raised", "problem_raised", "raised", "msg")}, seq["domain_text"]))
+    per, edits = {}, []
+    for k, (st, r) in enumerate(zip(seq["steps"], res["steps"])):
+        if st["kind"] == "edit":
+            if "edit_raised" in r:
+                raise RuntimeError("an edit through the library's API raised: %r %r" % (st, r))
+            edits.append((st["edit"], bool(r.get("done"))))
+            continue
+        per.setdefault(r["epoch"], []).append((k, st, r))
+    worlds, results = [], []
+    for e in sorted(per):
+        ep = res["epochs"][e]
+        probes = [{"action": st["action"], "args": st["args"], "state": seq["state_values"][st["state"]],
+                   "problem_text": seq["states"][st["state"]], "perm_seed": 0, "nwhen": 0, "nuniv": 0,
+                   "mode": st.get("mode"), "step": k, "epoch": e, "reused": bool(r.get("reused"))} for k, st, r in per[e]]
+        worlds.append({"domain_text": ep["text"], "objects": seq["objects"], "oof": False, "oof_kind": None, "probes": probes,
+                       "features": seq["features"], "tree": None, "sequence": seq})
+        results.append({"nums": ep["nums"], "vocab": ep["vocab"],
+                        "probes": [{"app": r["app"], "succ": {"raised": "not-observed"}} for _, _, r in per[e]]})
+    return worlds, results, edits
+
+
 def near_boundary_state(rng, st):
     """move every fluent next to one of the numerals the generated domains compare with: 0 .. 2 tolerances away (either side),
     or exactly one tolerance away give or take an ulp"""
@@ -378,9 +616,14 @@ def near_boundary_state(rng, st):
     return {"facts": st["facts"], "fluents": fl}
 
 
-def build_world_b(rng, w, n_states, calls_per_action, name="dom"):
-    """core_common.build_world with one addition: every other state has its fluents moved to the tolerance boundary"""
-    objs = G.gen_objects(rng, w)
+def build_world_b(rng, w, n_states, calls_per_action, name="dom", objs=None):
+    """core_common.build_world with one addition: every other state has its fluents moved to the tolerance boundary.
+    wave 3: one world in six has an object table of size 0 or 1 (calls then bind constants, or the action has no parameter)"""
+    if objs is None:
+        r = rng.random()
+        objs = [] if r < 0.08 else G.gen_objects(rng, w, n=1) if r < 0.16 else G.gen_objects(rng, w)
+        if len(objs) < 2:
+            w.features.add("object-table-of-size-%d" % len(objs))
     text = G.render(w.domain_tree(name), rng, True)
     probes = []
     for k in range(n_states):
@@ -493,6 +736,17 @@ def generated_worlds(rng, tier):
         worlds.append(build_alias_b(rng, n_states=3, calls_per_action=4))
     for _ in range({"quick": 8, "thorough": 60}[tier]):
         worlds.append(gen_keyed_world(rng))
+    for _ in range({"quick": 24, "thorough": 240}[tier]):
+        worlds.append(gen_boundary_world(rng))
+    # the same probes through Operators built without an object table: worlds with a universal precondition first
+    usable = [wd for wd in worlds if not wd.get("keyed") and wd["probes"]]
+    with_q = [wd for wd in usable if "forall-pre" in wd["features"]]
+    streams = [[wd for wd in with_q if wd.get("boundary")], [wd for wd in with_q if not wd.get("boundary")],
+               [wd for wd in usable if "forall-pre" not in wd["features"]]]
+    cands = []
+    for i in range(max(len(x) for x in streams)):        # two with a universal precondition (boundary table / ordinary), then one without
+        cands += [x[i] for x in streams[:2] if i < len(x)] + ([streams[2][i // 2]] if i % 2 == 0 and i // 2 < len(streams[2]) else [])
+    worlds += [noobj_copy(wd) for wd in cands[:{"quick": 16, "thorough": 150}[tier]]]
     return worlds
 
 
@@ -535,23 +789,29 @@ def run(args):
     rng = random.Random(args.seed * 104729 + 2)
     cfg = run_impl([{"op": "core.numeric_config"}], nproc=1)[0]
     fixture_only = None
+    seqs = []
     if args.replay:
         data = json.load(open(args.replay))
         wd = data["input"]["world"]
         if wd.get("fixture"):
             fixture_only = dict(wd["probes"][0]["fixture"])
             worlds, jobs, exhaustive = [], [], {}
+        elif wd.get("sequence"):
+            seqs, worlds, jobs, exhaustive = [wd["sequence"]], [], [], {}
         else:
             worlds, jobs, exhaustive = [wd], [], {}
     else:
         worlds = corpus_worlds() + generated_worlds(rng, args.tier)
         jobs, exhaustive = scope_jobs(rng, args.tier)
+        seqs = [build_sequence_b(rng, rng.randint(3, 6)) for _ in range({"quick": 20, "thorough": 150}[args.tier])]
     hashseeds = [0] if args.tier == "quick" else [0, 1, 2]
 
     stats = {"worlds": 0, "world_probes": 0, "world_app_true": 0, "world_app_false": 0, "world_app_raised": 0,
              "features": {}, "scope_probes": 0, "scope_true": 0, "scope_false": 0, "scope_raised": 0,
              "scope_formulas": {}, "scope_rows": 0, "scope_rows_capped": 0, "scope_by_size": {},
-             "formulas_with_both_truth_values": 0, "formulas_total": 0}
+             "formulas_with_both_truth_values": 0, "formulas_total": 0, "boundary_probes": {},
+             "sequence_worlds": 0, "sequence_queries": 0, "sequence_queries_same_operator_object": 0, "sequence_edits_done": {},
+             "sequence_edits_without_effect": {}, "sequence_repeated_queries": 0, "sequence_repeated_queries_whose_answer_changed": 0}
     # Everything is evaluated in chunks and only what the decision rule needs is kept (failing cases, counts, hashes of the
     # non-trivial inputs): a thorough run has several hundred thousand probes.
     acc = {"failing": [], "verdicts": "", "passed": 0, "nontrivial": set(), "nontrivial_scope": 0,
@@ -582,7 +842,7 @@ def run(args):
             lits, units = [], []
             for wd, res in chunk:
                 lit, u = world_literal(wd, res, STATED_EPS.hex())
-                lits.append("(%s %s)" % ("AK" if wd.get("keyed") else "AW", lit))
+                lits.append("(%s %s)" % ("AK" if wd.get("keyed") else "AN" if wd.get("noobj") else "AW", lit))
                 units.append(u)
             verdicts = evaluate(lits, units)
             pos = 0
@@ -598,6 +858,8 @@ def run(args):
                                              for kk in ("domain_text", "objects", "oof", "oof_kind", "features")},
                                    "hashseed": hs, "implementation": r.get("app", r)}
                             inp["world"]["keyed"] = bool(wd.get("keyed"))
+                            inp["world"]["noobj"] = bool(wd.get("noobj"))
+                            inp["world"]["sequence"] = wd.get("sequence")
                             inp["world"]["fixture"] = wd.get("fixture")
                             inp["world"]["probes"] = [pr]
                             return {"lit": lit, "input": inp, "nontrivial": True, "witness_of": wd.get("witness_of"),
@@ -611,13 +873,40 @@ def run(args):
                             a = r.get("app", {})
                             stats["world_app_true" if a.get("value") is True else
                                   "world_app_false" if a.get("value") is False else "world_app_raised"] += 1
+                            if wd.get("boundary") or wd.get("noobj") or len(wd["objects"]) < 2:
+                                key = ("no-object-table:" if wd.get("noobj") else "") + (wd.get("boundary") or "table-of-size-%d" % len(wd["objects"]))
+                                row = stats["boundary_probes"].setdefault(key, {"true": 0, "false": 0, "raised": 0})
+                                row["true" if a.get("value") is True else "false" if a.get("value") is False else "raised"] += 1
                 if count:
                     stats["worlds"] += 1
                     for f in wd["features"]:
                         stats["features"][f] = stats["features"].get(f, 0) + 1
 
     for si, hs in enumerate(hashseeds):
-        world_stream(hs, worlds, run_worlds(worlds, hashseed=hs), si == 0)
+        world_stream(hs, worlds, run_worlds_c02(worlds, hashseed=hs), si == 0)
+        if seqs:
+            sw, sr = [], []
+            jobs_q = [dict({k: v for k, v in q.items() if k != "state_values"}, op="c20.sequence") for q in seqs]
+            for seq, res in zip(seqs, run_impl(jobs_q, hashseed=hs)):
+                ws1, rs1, edits = sequence_worlds_b(seq, res)
+                sw += ws1
+                sr += rs1
+                if si == 0:
+                    stats["sequence_worlds"] += 1
+                    for kind, done in edits:
+                        row = stats["sequence_edits_done" if done else "sequence_edits_without_effect"]
+                        row[kind] = row.get(kind, 0) + 1
+                    last = {}
+                    for wd1, r1 in zip(ws1, rs1):
+                        for pr, ob in zip(wd1["probes"], r1["probes"]):
+                            stats["sequence_queries"] += 1
+                            stats["sequence_queries_same_operator_object"] += 1 if pr["reused"] else 0
+                            key = json.dumps([pr["action"], pr["args"], pr["state"]], sort_keys=True)
+                            if key in last and last[key][0] != pr["epoch"]:
+                                stats["sequence_repeated_queries"] += 1
+                                stats["sequence_repeated_queries_whose_answer_changed"] += 1 if last[key][1] != ob["app"] else 0
+                            last[key] = (pr["epoch"], ob["app"])
+            world_stream(hs, sw, sr, si == 0)
     if fixture_only is not None or not args.replay:
         fw, fr = fixture_worlds(rng, args.tier, fixture_only)
         if fixture_only is not None:       # the replayed probe is one state of one call
